@@ -480,7 +480,7 @@ impl Prop for C18 {
     fn runs(&self, tier: Tier) -> u64 {
         match tier {
             Tier::Quick => 1_000_000,
-            Tier::Thorough => 40_000_000,
+            Tier::Thorough => 120_000_000,
         }
     }
 
